@@ -1428,6 +1428,187 @@ fn string_length_probes(rep: &mut Report) {
     }
 }
 
+// ------------------------------------------------------------------------------------------------
+// stream G: assignment coercions — a stored value is the exact value, or the statement fails and changes nothing
+// ------------------------------------------------------------------------------------------------
+#[derive(Clone, Copy, PartialEq, Debug)]
+enum Ty {
+    Small,
+    Int,
+    Big,
+    Uns,
+}
+impl Ty {
+    fn sql(self) -> &'static str {
+        match self {
+            Ty::Small => "SMALLINT",
+            Ty::Int => "INTEGER",
+            Ty::Big => "BIGINT",
+            Ty::Uns => "UNSIGNED",
+        }
+    }
+    fn name(self) -> &'static str {
+        match self {
+            Ty::Small => "smallint",
+            Ty::Int => "integer",
+            Ty::Big => "bigint",
+            Ty::Uns => "unsigned",
+        }
+    }
+    fn range(self) -> (i128, i128) {
+        match self {
+            Ty::Small => (i16::MIN as i128, i16::MAX as i128),
+            Ty::Int | Ty::Big => (i64::MIN as i128, i64::MAX as i128),
+            Ty::Uns => (0, u64::MAX as i128),
+        }
+    }
+}
+
+/// an exact-integer SQL expression for `v` (None when it cannot be written without a float literal)
+fn exact_sql(v: i128) -> Option<String> {
+    if in64(v) {
+        Some(int_sql(v as i64))
+    } else {
+        None
+    }
+}
+
+fn stored_of(v: &SqlValue) -> Option<i128> {
+    match v {
+        SqlValue::Integer(i) | SqlValue::Bigint(i) => Some(*i as i128),
+        SqlValue::Smallint(i) => Some(*i as i128),
+        SqlValue::Unsigned(u) => Some(*u as i128),
+        _ => None,
+    }
+}
+
+#[allow(clippy::too_many_arguments)]
+fn stream_g_case(ty: Ty, kind: &str, v: i128, setup_extra: &[String], stmt: &str, target_id: i64, strict: bool, model: &mut model::Model, rep: &mut Report) {
+    let mut db = Db::new();
+    db.must(&format!("CREATE TABLE a (id INTEGER PRIMARY KEY, c {}, k INTEGER)", ty.sql()));
+    db.must("INSERT INTO a (id, k) VALUES (1, 0)");
+    for s in setup_extra {
+        if !db.exec(s).is_ok() {
+            rep.count("G_setup_statement_rejected");
+            return;
+        }
+    }
+    let before = db.scan("a").unwrap_or_default();
+    let out = db.exec(stmt);
+    let after = db.scan("a").unwrap_or_default();
+    let script = db_script(&db);
+    let id = format!("G {} {} {} {}", ty.name(), kind, v, stmt);
+    rep.case(&id, true);
+    rep.count(&format!("G_kind_{}", kind));
+    rep.count(&format!("G_type_{}", ty.name()));
+    let (lo, hi) = ty.range();
+    rep.count(if v < lo || v > hi { "G_value_out_of_type_range" } else if v == lo || v == hi { "G_value_at_type_boundary" } else { "G_value_inside_type_range" });
+    let m = model.ask(&format!("assign {} {}", ty.name(), v));
+    let row_now = after.iter().find(|r| stored_of(&r[0]) == Some(target_id as i128));
+    let row_before = before.iter().find(|r| stored_of(&r[0]) == Some(target_id as i128));
+    let changed = canon::rows_bag(&before) != canon::rows_bag(&after);
+    let replay = format!("{}-- exact value assigned: {}\n-- outcome: {}\n-- table before: {}\n-- table after:  {}\n-- model: {}", script, v, out.brief(), canon::rows_seq(&before), canon::rows_seq(&after), m);
+    if out.is_panic() {
+        rep.fail(FailKind::Oracle, None, &format!("panic in an assignment: {} @ {}", out.brief(), last_panic()), &replay);
+        return;
+    }
+    let accepted = matches!(&out, Out::Count(n) if *n >= 1) || (out.is_ok() && changed);
+    if accepted {
+        // the stored value must be the exact value
+        let stored = row_now.and_then(|r| stored_of(&r[1]));
+        rep.count("G_accepted");
+        if stored != Some(v) {
+            rep.fail(FailKind::Oracle, None, "an assignment stored a number that is not the exact value assigned (no error reported)", &replay);
+            return;
+        }
+    } else {
+        rep.count("G_rejected");
+        if changed {
+            rep.fail(FailKind::Oracle, None, "a failed assignment changed the table", &replay);
+            return;
+        }
+        let _ = row_before;
+    }
+    rep.traces_validated += 1;
+    let want_accept = m.starts_with("(ok");
+    if accepted && !want_accept {
+        rep.fail(FailKind::ModelDiff, None, "assignment accepted although the value is outside the column type's range (Arith.coerceTo rejects)", &replay);
+    } else if !accepted && want_accept && strict {
+        rep.fail(FailKind::ModelDiff, None, "assignment of an in-range exact integer rejected (Arith.coerceTo accepts)", &replay);
+    } else if !accepted && want_accept {
+        rep.count("G_in_range_value_rejected_by_a_form_the_engine_does_not_support");
+    }
+}
+
+fn stream_g(args: &Args, rng: &mut Rng, model: &mut model::Model, rep: &mut Report) {
+    let p2 = |n: u32| 1i128 << n;
+    for ty in [Ty::Small, Ty::Int, Ty::Big, Ty::Uns] {
+        let (lo, hi) = ty.range();
+        let mut vals: Vec<i128> = vec![
+            lo - 1, lo, lo + 1, hi - 1, hi, hi + 1, 0, 1, -1, p2(15), -p2(15), p2(15) - 1, -p2(15) - 1, p2(16), -p2(16), p2(16) + 4464, 70000, p2(31), -p2(31), p2(32), -p2(32), p2(63) - 1, -p2(63), p2(63), p2(64) - 1, p2(64),
+        ];
+        for _ in 0..args.n(6, 200) {
+            vals.push(gen_int(rng) as i128);
+            vals.push(rng.range(-70000, 70000) as i128);
+        }
+        vals.sort();
+        vals.dedup();
+        // UNSIGNED columns accept no INTEGER-typed value at all on INSERT (engine limitation): strictness only for UPDATE forms
+        for v in vals {
+            let start_in = |c0: i128| -> Vec<String> {
+                if c0 == 0 && ty == Ty::Uns {
+                    vec!["UPDATE a SET c = 0".to_string()]
+                } else {
+                    vec![format!("UPDATE a SET c = {}", exact_sql(c0).unwrap_or_else(|| c0.to_string()))]
+                }
+            };
+            // K1 literal (also the float-typed literals 2^63, 2^64)
+            let lit = exact_sql(v).unwrap_or_else(|| v.to_string());
+            if v >= -p2(63) {
+                stream_g_case(ty, "update_literal", v, &[], &format!("UPDATE a SET c = {} WHERE id = 1", lit), 1, in64(v) && ty != Ty::Uns, model, rep);
+            }
+            if !in64(v) {
+                continue;
+            }
+            // K2 col + k / col - k from a boundary start
+            for c0 in [0i128, hi.min(i64::MAX as i128), lo] {
+                let k = v - c0;
+                if !in64(k) || c0 < lo || c0 > hi || (ty == Ty::Uns && c0 > i64::MAX as i128) {
+                    continue;
+                }
+                // (a literal beyond i64::MAX would be a float: i64::MIN is written as an exact expression)
+                let stmt = if k >= 0 {
+                    format!("UPDATE a SET c = c + {}", k)
+                } else if k == i64::MIN as i128 {
+                    format!("UPDATE a SET c = c + {}", int_sql(i64::MIN))
+                } else {
+                    format!("UPDATE a SET c = c - {}", -k)
+                };
+                stream_g_case(ty, "update_add", v, &start_in(c0), &stmt, 1, ty != Ty::Uns, model, rep);
+            }
+            // K3 col * k
+            if v != 0 {
+                stream_g_case(ty, "update_mul", v, &start_in(1), &format!("UPDATE a SET c = c * {}", int_sql(v as i64)), 1, ty != Ty::Uns, model, rep);
+            }
+            if v % 2 == 0 && v / 2 >= lo && v / 2 <= hi && in64(v / 2) {
+                stream_g_case(ty, "update_mul", v, &start_in(v / 2), "UPDATE a SET c = c * 2", 1, ty != Ty::Uns, model, rep);
+            }
+            // K4 scalar subquery
+            stream_g_case(ty, "update_subquery", v, &[], &format!("UPDATE a SET c = (SELECT {})", lit), 1, ty != Ty::Uns, model, rep);
+            // K5 INSERT ... SELECT expr
+            stream_g_case(ty, "insert_select", v, &[], &format!("INSERT INTO a (id, c) SELECT 2, {}", lit), 2, ty != Ty::Uns, model, rep);
+            // K6 / K7 / K8 / K9 literal forms (INSERT ... VALUES takes literals only)
+            if v >= 0 {
+                stream_g_case(ty, "insert_values", v, &[], &format!("INSERT INTO a (id, c) VALUES (2, {})", v), 2, ty != Ty::Uns, model, rep);
+                stream_g_case(ty, "replace", v, &[], &format!("REPLACE INTO a (id, c) VALUES (1, {})", v), 1, ty != Ty::Uns, model, rep);
+                stream_g_case(ty, "on_duplicate_key_update", v, &[], &format!("INSERT INTO a (id, c) VALUES (1, 0) ON DUPLICATE KEY UPDATE c = {}", v), 1, false, model, rep);
+                stream_g_case(ty, "column_default_insert", v, &[format!("ALTER TABLE a ALTER COLUMN c SET DEFAULT {}", v)], "INSERT INTO a (id) VALUES (3)", 3, false, model, rep);
+                stream_g_case(ty, "column_default_update", v, &[format!("ALTER TABLE a ALTER COLUMN c SET DEFAULT {}", v)], "UPDATE a SET c = DEFAULT", 1, false, model, rep);
+            }
+        }
+    }
+}
+
 fn main() {
     install_hook();
     let args = Args::parse("C24");
@@ -1435,7 +1616,7 @@ fn main() {
         &args,
         "case = one statement / expression / API call with its database state; streams A (integer expressions over \
          boundary operands, literal and column form), B (SUM), C (SUBSTRING), D (LIMIT/OFFSET), E (index range scan, API \
-         and SQL), F (statement stream). Non-trivial = A: at least one operator; B: >= 2 rows; C: non-empty string; \
+         and SQL), G (assignment coercions into SMALLINT / INTEGER / BIGINT / UNSIGNED columns), F (statement stream). Non-trivial = A: at least one operator; B: >= 2 rows; C: non-empty string; \
          D: non-empty table; E: >= 2 index keys (API) / predicate selects a proper non-empty subset (SQL); \
          F: not a DDL/truncated-text statement. Distinct by hash of the case text.",
     );
@@ -1455,9 +1636,11 @@ fn main() {
     stream_e_api(&args, &mut rng, &mut model, &mut rep);
     stream_e_sql(&args, &mut rng, &mut rep);
     let te = t0.elapsed().as_secs_f64();
+    stream_g(&args, &mut rng, &mut model, &mut rep);
+    let tg0 = t0.elapsed().as_secs_f64();
     stream_f(&args, &mut rng, &mut rep);
     let tf = t0.elapsed().as_secs_f64();
-    rep.extra.insert("stream_seconds".into(), serde_json::json!({"A": ta, "BCD": td - ta, "E": te - td, "F": tf - te}));
+    rep.extra.insert("stream_seconds".into(), serde_json::json!({"A": ta, "BCD": td - ta, "E": te - td, "G": tg0 - te, "F": tf - tg0}));
     rep.extra.insert("model_requests".into(), serde_json::json!(model.requests));
     rep.extra.insert(
         "partial_theorems".into(),
